@@ -92,6 +92,8 @@ type ICase struct {
 	Tag  string `json:"tag"`
 	Jobs []Job  `json:"jobs"`
 	Obs  []Obs  `json:"obs,omitempty"`
+	// Expect, when set, is the call trace the reference semantics requires per job
+	Expect [][]string `json:"expect_trace,omitempty"`
 	// Coq terms of the trees, filled by execution
 	trees []string
 	objs0 []objV
